@@ -184,18 +184,33 @@ class W09:
         self.kwdir = ""
         self.opi = -1
         self.aborted = False
+        self.scanner_cfg = {}
+        self.cur_cfg = 0
 
     def setup(self):
         cfg = self.scn["config"]
         FS.configure(enum_seed=self.w.get("enum_seed", 0), io_seed=self.w.get("io_seed", 0), io_knobs=self.w.get("io", {}))
         if cfg["keywords"] != "shipped":
-            fsim.materialise(cfg["keywords"], os.path.join(self.scratch, "kw"))
+            self.cur_cfg = int(self.w.get("config_idx", 0))
+            fsim.materialise(self.layout_of(self.cur_cfg), os.path.join(self.scratch, "kw"))
             self.kwdir = kwdir_path(self.scratch, self.w.get("kwdir_form"))
         import_repo()
         import multidecoder.json_conversion  # noqa: F401
         import multidecoder.multidecoder  # noqa: F401
         import multidecoder.query  # noqa: F401
         import multidecoder.registry  # noqa: F401
+
+    def layout_of(self, idx):
+        cfg = self.scn["config"]
+        return cfg["keywords"] if not idx else cfg["variants"][idx - 1]
+
+    def set_config(self, idx):
+        """The keyword files are replaced in place by a variant with the same
+        paths, the same sizes and the same timestamps: registries built from now
+        on must reflect the new contents."""
+        fsim.materialise(self.layout_of(idx), os.path.join(self.scratch, "kw"))
+        self.cur_cfg = idx
+        self.counters["config_swaps"] = self.counters.get("config_swaps", 0) + 1
 
     def record(self, key, tree_or_exc, task=None, keep=True):
         if isinstance(tree_or_exc, BaseException):
@@ -234,10 +249,20 @@ class W09:
         else:
             reg = build_registry(self.kwdir, include=cfg.get("include"), exclude=cfg.get("exclude"))
             self.scanners[sid] = Multidecoder(reg)
+        self.scanner_cfg[sid] = self.cur_cfg
 
-    def do_scan(self, sid, i, d, via_node=False):
+    @staticmethod
+    def tkey(cfg, i, d, kind="tree"):
+        return f"{i}:{d}:{kind}" if not cfg else f"cfg{cfg}:{i}:{d}:{kind}"
+
+    def do_scan(self, sid, i, d, via_node=False, fresh=False):
         sc = self.scanners[sid]
         data = self.corpus[i]
+        if fresh:
+            # a buffer of its own that dies with the result: the next one may reuse its address
+            data = bytes(bytearray(data))
+            self.counters["fresh_buffer_scans"] = self.counters.get("fresh_buffer_scans", 0) + 1
+        cfgk = self.scanner_cfg.get(sid, 0)
         self.counters["scans"] += 1
         try:
             with watchdog(OP_LIMIT):
@@ -254,7 +279,8 @@ class W09:
             t = e
         except Exception as e:  # noqa: BLE001 - an exception is a result too
             t = e
-        self.record(f"{i}:{d}:tree", t)
+        self.record(self.tkey(cfgk, i, d), t, keep=not fresh)
+        del t, data
 
     def do_abort_scan(self, sid, i, d, spec):
         """Crash point inside a scan: run it once to learn its length in traced
@@ -270,9 +296,9 @@ class W09:
         except HangDetected:
             raise Harness("stall in abort_scan dry run")
         except (kernel.StepLimitExceeded, Exception) as e:  # noqa: BLE001
-            self.record(f"{i}:{d}:tree", e, task="dry")
+            self.record(self.tkey(self.scanner_cfg.get(sid, 0), i, d), e, task="dry")
             return
-        self.record(f"{i}:{d}:tree", t, task="dry")
+        self.record(self.tkey(self.scanner_cfg.get(sid, 0), i, d), t, task="dry")
         if n < 1:
             return
         at = 1 + (spec.get("seed", 0) % n)
@@ -295,12 +321,17 @@ class W09:
 
         with_view = bool(spec.get("view"))
 
-        def mk(i, d):
+        def mk(i, d, via_node=False):
             data = self.corpus[i]
 
             def fn():
                 try:
-                    t = sc.scan(data, d)
+                    if via_node:
+                        from multidecoder.node import Node
+
+                        t = sc.scan_node(Node("", data, "", 0, len(data)), d)
+                    else:
+                        t = sc.scan(data, d)
                     if with_view:
                         # read-only views taken while other threads are still scanning
                         t.flatten()
@@ -312,7 +343,9 @@ class W09:
 
             return fn
 
-        fns = [mk(i, d) for i, d in jobs]
+        fns = [mk(j[0], j[1], len(j) > 2 and bool(j[2])) for j in jobs]
+        jobs = [(j[0], j[1]) for j in jobs]
+        cfgk = self.scanner_cfg.get(sid, 0)
         # sequential dry run: step counts (for PCT and the step cap) and a
         # same-world sequential witness for every key
         est = 0
@@ -326,10 +359,10 @@ class W09:
                 raise Harness(f"stall: dry run of input {i} exceeded {OP_LIMIT * 2}s of wall time")
             except kernel.StepLimitExceeded as e:
                 self.aborted = True
-                self.record(f"{i}:{d}:tree", e, task="dry")
+                self.record(self.tkey(cfgk, i, d), e, task="dry")
                 return
             est += n
-            self.record(f"{i}:{d}:tree", t, task="dry")
+            self.record(self.tkey(cfgk, i, d), t, task="dry")
         policy = sched.make_policy(spec, len(fns) + 1, est, counts)
         s = KERNEL
         # every schedule executes the same work as the dry run (est steps) plus a little; anything
@@ -339,7 +372,7 @@ class W09:
         try:
             tasks = s.run_tasks(fns, real_timeout=PAR_LIMIT)
         except kernel.SimDeadlock as e:
-            self.record(f"{jobs[0][0]}:{jobs[0][1]}:tree", e, task="deadlock")
+            self.record(self.tkey(cfgk, jobs[0][0], jobs[0][1]), e, task="deadlock")
             return
         if s.hung:
             raise Harness(f"stall: par_scan exceeded {PAR_LIMIT}s of wall time without exceeding the step limit")
@@ -347,11 +380,11 @@ class W09:
             if isinstance(t.error, kernel.StepLimitExceeded):
                 self.aborted = True
             if not t.done:
-                self.record(f"{i}:{d}:tree", HangDetected(), task=t.idx)
+                self.record(self.tkey(cfgk, i, d), HangDetected(), task=t.idx)
             elif t.error is not None:
-                self.record(f"{i}:{d}:tree", t.error, task=t.idx)
+                self.record(self.tkey(cfgk, i, d), t.error, task=t.idx)
             else:
-                self.record(f"{i}:{d}:tree", t.result, task=t.idx)
+                self.record(self.tkey(cfgk, i, d), t.result, task=t.idx)
         pre = max(0, s.switches)
         self.counters["preemptions"] += pre
         self.counters["sched_events"] += s.n
@@ -435,11 +468,14 @@ class W09:
             argv.append(p)
             stdin = b""
         self.counters["cli_runs"] += 1
-        r = procsim.run_cli(argv, stdin, self.w.get("io", {}), self.w.get("io_seed", 0) + self.opi, self.counters)
+        knobs = dict(self.w.get("io", {}))
+        if mode == "default" and not self.scn["config"].get("ascii_labels", False):
+            # with non-ASCII labels the default rendering legitimately depends on the stream encoding
+            knobs.pop("stdout_encoding", None)
+        r = procsim.run_cli(argv, stdin, knobs, self.w.get("io_seed", 0) + self.opi, self.counters)
         v = [r["status"], r["stdout"].hex(), bool(r["stderr"])]
-        self.results.append(
-            {"key": f"{i}:cli:{mode}", "digest": model.digest(v), "op": self.opi, "task": None, "status": r["status"]}
-        )
+        ck = f"{i}:cli:{mode}" if not self.cur_cfg else f"cfg{self.cur_cfg}:{i}:cli:{mode}"
+        self.results.append({"key": ck, "digest": model.digest(v), "op": self.opi, "task": None, "status": r["status"]})
         if self.verbose:
             self.forms[model.digest(v)] = [r["status"], r["stdout"].decode("latin-1"), r["stderr"][-400:]]
 
@@ -465,6 +501,10 @@ class W09:
                     self.do_scan(op[1], op[2], op[3])
                 elif k == "scan_node":
                     self.do_scan(op[1], op[2], op[3], via_node=True)
+                elif k == "scan_fresh":
+                    self.do_scan(op[1], op[2], op[3], fresh=True)
+                elif k == "set_config":
+                    self.set_config(op[1])
                 elif k == "view":
                     self.do_view(op[1])
                 elif k == "mutate":
@@ -904,8 +944,17 @@ class W20:
             if kwdir:
                 argv += ["-k" if run.get("short") else "--keywords", kwdir]
             stdin = data
+            fifo = None
             if run["source"] == "file":
                 argv.append(infile)
+                stdin = b""
+            elif run["source"] == "fifo":
+                # FILE names a pipe (process substitution, mkfifo): no size, bytes arrive in pieces
+                import random as _random
+
+                fifo = fsim.FifoFeeder(os.path.join(self.scratch, f"fifo-{k}"), data, _random.Random(run.get("seed", 0)), run.get("knobs") or {}, self.counters)
+                fifo.start()
+                argv.append(fifo.path)
                 stdin = b""
             if run.get("flag_last") and flag:
                 argv = argv[1:] + [flag]
@@ -922,6 +971,8 @@ class W20:
                 r = procsim.run_cli(argv, stdin, knobs, run.get("seed", 0), self.counters)
             finally:
                 FS.io_knobs = saved_knobs
+                if fifo is not None:
+                    fifo.stop()
             out = r["stdout"]
             if r["crashed"]:
                 self.counters["crashes"] += 1
@@ -946,10 +997,11 @@ class W20:
             if prev is not None and prev != out:
                 self.viol("file_vs_stdin_or_rerun_differs", f"{mode}: two fault-free runs on the same bytes gave different output")
             outputs[mode] = out
+            enc = knobs.get("stdout_encoding") or "utf-8"
             if mode == "json":
-                self.check_json(out, tree, ctree, run)
+                self.check_json(out, tree, ctree, run, enc)
             elif mode == "default":
-                self.check_default(out, ctree)
+                self.check_default(out, ctree, enc)
             else:
                 self.check_replace(out, tree, ctree)
         return {"violations": self.violations, "counters": self.counters, "events": self.events}
@@ -979,10 +1031,10 @@ class W20:
             self.viol("roundtrip_parent_links", f"{where}: a child's parent is not the node that lists it (or the root has a parent)")
         return back
 
-    def check_json(self, out, tree, ctree, run):
+    def check_json(self, out, tree, ctree, run, enc="utf-8"):
         self.counters["json_runs"] += 0
         try:
-            text = out.decode("utf-8")
+            text = out.decode(enc)
             doc = json.loads(text)
         except Exception as ex:  # noqa: BLE001
             self.viol("json_invalid", f"stdout is not valid JSON: {ex}")
@@ -1022,7 +1074,7 @@ class W20:
                 walk(c)
 
         walk(d2)
-        kinds = ["value", "start", "end", "type", "obfuscation", "drop_child", "dup_child"]
+        kinds = ["value", "start", "end", "type", "obfuscation", "drop_child", "dup_child", "swap_children"]
         rng.shuffle(kinds)
         done = None
         for kind in kinds:
@@ -1052,6 +1104,11 @@ class W20:
                 elif kind == "dup_child" and n["children"]:
                     n["children"].append(copy.deepcopy(n["children"][-1]))
                     done = kind
+                elif kind == "swap_children" and len(n["children"]) >= 2:
+                    i = rng.randrange(len(n["children"]) - 1)
+                    if n["children"][i] != n["children"][i + 1]:
+                        n["children"][i], n["children"][i + 1] = n["children"][i + 1], n["children"][i]
+                        done = kind
                 if done:
                     break
             if done:
@@ -1073,10 +1130,28 @@ class W20:
             self.viol("corruption_undetected", f"a tree whose {done} was altered in transit still compares equal")
         else:
             self.counters["corruptions_detected"] += 1
+        # the altered tree is a tree no scan produces (spans may overlap or leave their parent):
+        # the codec must be lossless on it as well
+        from multidecoder.json_conversion import tree_to_json
 
-    def check_default(self, out, ctree):
         try:
-            text = out.decode("utf-8")
+            cb = model.canon(back)
+            again = json_to_tree(tree_to_json(back))
+            ca = model.canon(again)
+        except Exception as ex:  # noqa: BLE001
+            self.viol("roundtrip_raises", f"altered tree ({done}): {type(ex).__name__}: {ex}")
+            return
+        self.counters["synthetic_roundtrips"] = self.counters.get("synthetic_roundtrips", 0) + 1
+        if ca != cb:
+            self.viol("roundtrip_differs", f"altered tree ({done}): {model.canon_diff(cb, ca)}")
+        elif not (again == back):
+            self.viol("equal_trees_compare_unequal", f"altered tree ({done}): field-wise identical trees compare unequal")
+        if not model.parent_links_ok(again, None):
+            self.viol("roundtrip_parent_links", f"altered tree ({done})")
+
+    def check_default(self, out, ctree, enc="utf-8"):
+        try:
+            text = out.decode(enc)
         except Exception as ex:  # noqa: BLE001
             self.viol("default_not_utf8", str(ex))
             return
